@@ -167,6 +167,8 @@ struct LiveObs {
     /// after Connected both ends open channels of their own: ids (offerer concurrent, answerer concurrent,
     /// offerer sequential, answerer sequential) and the four deliveries on the channel with the peer's label
     dc2_ids: Vec<u16>, dc2: Vec<(&'static str, Result<(), String>)>,
+    /// the channel the answerer created before its association existed: id, and delivery a->o / o->a on it
+    early_id: Option<u16>, early: Vec<(&'static str, Result<(), String>)>,
     /// concurrent media + data phase: (oracle kind:direction, result) — empty when the point does not run it
     conc: Vec<(&'static str, Result<(), String>)>, conc_requested: bool,
     rtp_oa: Vec<Result<(), String>>, rtp_ao: Vec<Result<(), String>>,
@@ -214,7 +216,15 @@ async fn exec_live(cfg: Cfg, with_srtp_fn: bool, conc: bool) -> LiveObs {
     let mut o = LiveObs::default();
     let mut p = Pair::create(cfg, &Knobs::default());
     let t0 = Instant::now();
-    if let Err(e) = p.negotiate().await { o.err = Some(e); p.off.pc.close(); p.ans.pc.close(); return o; }
+    // offer / answer — with data channels the ANSWERER creates a channel of its own between applying the offer and
+    // answering, i.e. before its association exists (audit r3-N1: announced from the COOKIE-ECHO side)
+    let mut early: Option<Arc<rustrtc::transports::sctp::DataChannel>> = None;
+    let neg: Result<(), String> = async {
+        p.make_offer().await?; p.deliver_offer().await?;
+        if cfg.mix.has_data() { early = Some(p.ans.pc.create_data_channel("ans-early", None).map_err(|e| format!("answerer create_data_channel: {e}"))?); }
+        p.make_answer().await?; p.deliver_answer().await
+    }.await;
+    if let Err(e) = neg { o.err = Some(e); p.off.pc.close(); p.ans.pc.close(); return o; }
     if let (Some(of), Some(an)) = (&p.offer, &p.answer) {
         // the local descriptions as finally stored (ports are patched in after gathering in direct modes)
         let of = p.off.pc.local_description().unwrap_or(of.clone());
@@ -242,6 +252,13 @@ async fn exec_live(cfg: Cfg, with_srtp_fn: bool, conc: bool) -> LiveObs {
             if let (Some(odc), Some(adc)) = (p.off.dc.clone(), p.ans.dc.clone()) {
                 o.data_ao = Some(dc_roundtrip(&p.ans.pc, adc.id, &odc, b"verif-c10 answerer->offerer \xfe\x00", T_MSG).await);
             } else { o.data_ao = Some(Err("no channel at the answerer".into())); }
+            // the answerer's early channel: announced at the offerer (label), opens, one message each way on it
+            if let Some(e) = &early {
+                o.early_id = Some(e.id);
+                let at_o = announced_channel(&p.off.pc, "ans-early", T_MSG).await;
+                o.early.push(("a->o", async { let d = at_o.clone()?; wait_open(e, T_MSG).await?; dc_roundtrip(&p.ans.pc, e.id, &d, b"verif-c10 ans-early a->o", T_MSG).await }.await));
+                o.early.push(("o->a", async { let d = at_o?; dc_roundtrip(&p.off.pc, d.id, e, b"verif-c10 ans-early o->a", T_MSG).await }.await));
+            }
             // Both ends open channels of their own on the live connection (seed C10-b): first at the same
             // moment — neither has seen the other's DCEP OPEN when it allocates —, then one after the other.
             // Each end must be told about the peer's channel (its label) and receive the peer's message THERE.
@@ -334,8 +351,9 @@ fn live_lines(cfg: &Cfg, o: &LiveObs) -> (String, String) {
         o.ks_a.as_ref().map(|m| hex(m)).unwrap_or_else(|| "-".into()),
         o.suite_o, o.suite_a, if o.conc_requested { "c1" } else { "c0" }) + &format!(" # {}", cfg.text());
     let conc = if o.conc.is_empty() { "-".to_string() } else { o.conc.iter().map(|(_, r)| if r.is_ok() { '1' } else { '0' }).collect::<String>() };
+    let early = match o.early_id { None => "-".to_string(), Some(id) => format!("{id}:{}", o.early.iter().map(|(_, r)| if r.is_ok() { '1' } else { '0' }).collect::<String>()) };
     let dc2 = if o.dc2.is_empty() { "-".to_string() } else { format!("{}:{}", o.dc2_ids.iter().map(|i| i.to_string()).collect::<Vec<_>>().join("."), o.dc2.iter().map(|(_, r)| if r.is_ok() { '1' } else { '0' }).collect::<String>()) };
-    let out = format!("conn={} roles={}/{} setup={}/{} profile={}/{} keys={}/{} bundle={}/{} mux={}/{} ports={}/{} extra={}.{}/{}.{} data={}/{} rtp={}/{} dc2={dc2} conc={conc}",
+    let out = format!("conn={} roles={}/{} setup={}/{} profile={}/{} keys={}/{} bundle={}/{} mux={}/{} ports={}/{} extra={}.{}/{}.{} data={}/{} rtp={}/{} early={early} dc2={dc2} conc={conc}",
         o.connected as u8, role_text(o.role_o), role_text(o.role_a), o.setup_offer, o.setup_answer,
         o.profile_o, o.profile_a, o.keys_o, o.keys_a, o.bundle_offer as u8, o.bundle_answer as u8,
         o.mux_offer as u8, o.mux_answer as u8, o.ports_offer, o.ports_answer,
@@ -357,6 +375,7 @@ fn live_oracles(cfg: &Cfg, o: &LiveObs) -> Vec<(String, String)> {
         if let Some(Err(e)) = r { f.push((format!("cfg:{cls}:data-not-delivered:{d}"), e.clone())); }
     }
     for (d, r) in &o.conc { if let Err(e) = r { f.push((format!("cfg:{cls}:{d}:concurrent-media-and-data"), e.clone())); } }
+    for (d, r) in &o.early { if let Err(e) = r { f.push((format!("cfg:{cls}:data-not-delivered:answerer-early-channel:{d}"), e.clone())); } }
     for (d, r) in &o.dc2 { if let Err(e) = r { f.push((format!("cfg:{cls}:data-not-delivered:both-ends-create:{d}"), e.clone())); } }
     for (d, v) in [("o->a", &o.rtp_oa), ("a->o", &o.rtp_ao)] {
         for (i, r) in v.iter().enumerate() { if let Err(e) = r { f.push((format!("cfg:{cls}:rtp-not-delivered:{d}:section{i}"), e.clone())); } }
@@ -607,6 +626,29 @@ pub fn run(args: &Args) {
             run.case("muxsdp2", &format!("{} {} {} {}", mo as u8, lo as u8, ma as u8, la as u8), &out, mo != ma || lo != la);
             o.close(); a.close();
         }}}}
+    });
+
+    // (2e) MIXED compatibility modes on live pairs (audit r3-3.2): the property fixes only the transport mode; the
+    // lattice has the same compat mode at both ends. Direct modes, audio + video, full ICE, the offerer Standard and
+    // the answerer LegacySip and vice versa: Connected, one RTP sample per section each way. Implementation-side
+    // oracle only (the model's delivery plan takes ONE bundle flag for both ends).
+    rt.block_on(async {
+        for mode in [Mode::Rtp, Mode::Srtp] { for (lo, la) in [(false, true), (true, false)] {
+            let cfg = Cfg { mode, mix: Mix::AudioVideo, bundle: 0, mux_require: true, ice: IceOpt::Full, latching: false, legacy: lo, p_offers: true };
+            let name = format!("{}-av-{}offerer-{}answerer", match mode { Mode::Rtp => "rtp", Mode::Srtp => "srtp", _ => "webrtc" }, if lo { "legacy" } else { "std" }, if la { "legacy" } else { "std" });
+            let mut p = Pair::create(cfg, &Knobs { q_legacy: Some(la), ..Knobs::default() });
+            run.count("mixed_compat_pairs");
+            let r: Result<(), String> = async { p.negotiate().await?; p.wait_connected(T_CONNECT).await }.await;
+            match r {
+                Err(e) => run.fail(&format!("cfgmix:{name}:not-connected"), &format!("mixed {name}"), &e),
+                Ok(()) => {
+                    let t = Duration::from_secs(3);
+                    for (i, m) in p.off.media.iter().enumerate() { if let Err(e) = rtp_roundtrip(m, &p.ans.pc, format!("verif-c10-mix-oa-{i}").as_bytes(), t).await { run.fail(&format!("cfgmix:{name}:rtp-not-delivered:o->a:section{i}"), &format!("mixed {name}"), &e); } }
+                    for (i, m) in p.ans.media.iter().enumerate() { if let Err(e) = rtp_roundtrip(m, &p.off.pc, format!("verif-c10-mix-ao-{i}").as_bytes(), t).await { run.fail(&format!("cfgmix:{name}:rtp-not-delivered:a->o:section{i}"), &format!("mixed {name}"), &e); } }
+                }
+            }
+            p.off.pc.close(); p.ans.pc.close();
+        }}
     });
 
     // (3) pure helpers through hooks
